@@ -116,10 +116,36 @@ def run(ctx):
         kek = exact_pm(P, {v: [w for w in adj[v] if w in P] for v in P})
         # systems without a Kekule structure are fed as well: the encoder should reject them (C05 judges that); whatever
         # it accepts must survive the round trip
+        if rng.random() < 0.25:
+            # heavily isotope-labelled systems (the label must not change how the atom is treated).  A labelled atom is a
+            # bracket atom, so the implicit H of the organic-subset spelling has to be written out: normal valence minus
+            # sigma bonds (an exocyclic double bond counts twice) minus one if the atom needs a pi bond
+            for v_, a_ in enumerate(m.atoms):
+                if a_.aromatic and a_.isotope is None and a_.element in ("C", "N") and not a_.charge and rng.random() < 0.6:
+                    if a_.hcount is None:
+                        sigma = sum((2 if o == 2 else 1) for (x_, y_), o in m.bonds.items() if v_ in (x_, y_))
+                        a_.hcount = max(0, {"C": 4, "N": 3}[a_.element] - sigma - (1 if v_ in P else 0))
+                    a_.isotope = {"C": 13, "N": 15}[a_.element]
         for k in range(3 if kek else 2):
             s, order, _, _ = spell(m, rng)
-            if case(s, table, "q12", "aromatic") == "ok":
-                ctx.count("aromatic_roundtrips_ok")
+            st, mi, mo, x = roundtrip(ctx, sf, s, table, False, "aromatic")
+            ctx.case(("q12", s), st == "ok")
+            if st != "ok":
+                continue
+            ctx.count("aromatic_roundtrips_ok")
+            # "aromatic input bonds become a consistent single/double assignment": exactly one double bond on a former
+            # aromatic bond at every atom that needs one (generator-known set P), none at the others
+            inv = {g_: k_ for k_, g_ in enumerate(order)}
+            dbl = {}
+            for kx, o in mi.bonds.items():
+                if o == 1.5 and mo.bonds.get(kx) == 2:
+                    dbl[kx[0]] = dbl.get(kx[0], 0) + 1
+                    dbl[kx[1]] = dbl.get(kx[1], 0) + 1
+            Pw = {inv[g_] for g_ in P}
+            bad = [a_.idx for a_ in mi.atoms if a_.aromatic and dbl.get(a_.idx, 0) != (1 if a_.idx in Pw else 0)]
+            if bad and not unknown:
+                ctx.finding("aromatic-assignment-inconsistent", {"smiles": s, "selfies": x, "table": table},
+                            "atoms %r do not carry exactly the double bond they need inside the former aromatic system" % bad[:6])
 
     # --- macrocycles / long branches: index lengths 1, 2, 3
     sf.set_semantic_constraints("default")
